@@ -720,3 +720,56 @@ class Timer:
 
     def s(self):
         return round(time.time() - self.t0, 2)
+
+
+# ---------------------------------------------------------------------------------------------
+# balance-group report (C13)
+
+def parse_balgrp_report(text, title="BALANCE GROUP"):
+    """-> ordered list of groups {title, rows [(comm, acct, own, tree)], deltas [(comm, sum)], lines} from
+    BalanceGroupReporter text, or None when the report title is missing.  A group block is: the title line (starts
+    in column 0), a rule of dashes, the rows (indented), a rule of `=`, the delta lines (indented).  `lines` are the
+    raw lines of the block after the dashes rule."""
+    lines = text.split("\n")
+    try:
+        i = lines.index(title)
+    except ValueError:
+        return None
+    j = i + 2
+    groups = []
+    cur = None
+    in_deltas = False
+    while j < len(lines):
+        ln = lines[j]
+        j += 1
+        if ln == "" and cur is None:
+            continue
+        if ln and not ln[0].isspace() and not ln.startswith("====="):
+            # a group title; the next line is its rule
+            cur = {"title": ln, "rows": [], "deltas": [], "lines": []}
+            groups.append(cur)
+            in_deltas = False
+            if j < len(lines) and lines[j] and set(lines[j]) == {"-"}:
+                j += 1
+            else:
+                cur["garbled"] = "title without rule"
+            continue
+        if cur is None:
+            groups.append({"title": None, "rows": [], "deltas": [], "lines": [ln], "garbled": ln})
+            continue
+        if ln == "":
+            continue
+        cur["lines"].append(ln)
+        if ln.startswith("====="):
+            in_deltas = True
+            continue
+        tok = ln.split()
+        if in_deltas:
+            cur["deltas"].append((tok[1] if len(tok) > 1 else "", tok[0]))
+        elif len(tok) == 3:
+            cur["rows"].append(("", tok[2], tok[0], tok[1]))
+        elif len(tok) == 4:
+            cur["rows"].append((tok[2], tok[3], tok[0], tok[1]))
+        else:
+            cur["rows"].append(("?", ln, "?", "?"))
+    return groups
